@@ -600,7 +600,7 @@ func (g *G) leaf(c ctxKind, noMarker bool) {
 		}
 	}
 	for {
-		k := g.intn("leaf.kind", 0, 23)
+		k := g.intn("leaf.kind", 0, 27)
 		switch k {
 		case 0:
 			if c == ctxNonNull {
@@ -635,7 +635,7 @@ func (g *G) leaf(c ctxKind, noMarker bool) {
 			g.emitArray(events.ArrayTypeString, 0, []byte(s))
 		case 18:
 			g.emitArray(events.ArrayTypeResourceID, 0, []byte(g.ridText("leaf.rid")))
-		case 19, 20:
+		case 19, 20, 24, 25, 26, 27:
 			g.typedArray()
 		case 21:
 			if !g.o.Media || g.o.NoMedia {
